@@ -214,6 +214,16 @@ def anchors(P):
 def r12a(P, R):
     scope = json_scope(P)
     R.count("json_printer_functions", len(scope))
+    # a component can also be read on the printer's behalf by the AST type's own view impls (`impl IntoIterator for &Arguments`,
+    # `Deref`, `AsRef`, `Index`): std adaptors such as `flatten()` / a `for` loop call them without a call site in the printer.
+    # They count as readers when the printer handles values of that type at all
+    views = []
+    for g in P.fns.values():
+        if g.impl_trait and not g.derived and g.self_adt and g.self_adt.startswith("nitrogql_ast::") and g.path not in scope and \
+                g.impl_trait.split("::")[-1] in ("IntoIterator", "Deref", "AsRef", "Borrow", "Index"):
+            if any(g.self_adt in str(x.get("t") or "") for p in scope for x in P.fns[p].walk()):
+                views.append(g.path)
+    scope = scope + sorted(views)
     n = field_coverage(P, R, "R12-a", scope, ["nitrogql_ast::" + t for t in AST_TYPES], EXEMPT,
                        "the JSON (graphql-js DocumentNode) printer")
     R.floor("R12-a", "AST content fields", n, 38)
